@@ -653,6 +653,11 @@ class ComplexModelMeta(with_metaclass(Prepareable, type(ModelBase))):
         assert issubclass(attrs, ComplexModelBase.Attributes), \
                    ("%r must be a ComplexModelBase.Attributes subclass" % attrs)
 
+        # every class tracks its own customized variants: a subclass must not
+        # see (and add fields to) the variants of its parent.
+        if '_variants' not in attrs.__dict__:
+            attrs._variants = None
+
         cls_dict = _get_ordered_attributes(cls_name, cls_dict, attrs)
 
         type_name = cls_dict.get("__type_name__", None)
